@@ -6,7 +6,7 @@ export CARGO_NET_OFFLINE=true
 mkdir -p .cache evidence replays
 # 1. harness (debug profile; against /repo's working tree, hooks on via harness/.cargo/config.toml)
 [ -f harness/Cargo.lock ] || cp /repo/Cargo.lock harness/Cargo.lock
-(cd harness && cargo build --offline --workspace --bins) || echo "setup: harness build failed (checks will report it)"
+tools/sync_workspace.py; (cd harness && cargo build --offline --workspace --bins) || echo "setup: harness build failed (checks will report it)"
 # 2. shims
 if [ -f shims/fsshim.c ]; then gcc -O2 -shared -fPIC -o shims/fsshim.so shims/fsshim.c -ldl || echo "setup: fsshim build failed"; fi
 # 3. models regenerated from /repo (translator), then the whole Coq development (full .vo build)
